@@ -320,10 +320,58 @@ def run_script(job, hashseed):
     return {"out": json.loads(p.stdout)}
 
 
+def rich_schema(rng):
+    """a valid 'fleet' schema: several enums, CAN structs spread over several buses and several devices per bus,
+    signal blocks, services with several methods, device declarations — everything a generator might collect in a
+    set or a dict before printing it"""
+    buses = rng.sample(["b1", "b2", "chas", "pt", "body"], rng.randint(1, 4))
+    devices = rng.sample(["bms", "inverter", "charger", "dashboard", "ecu2", "vcu", "tcu"], rng.randint(2, 6))
+    out = []
+    enums = []
+    for k in range(rng.randint(2, 4)):
+        items = ",\n".join(f"    V{k}_{j} = {j * rng.randint(1, 3) + (j > 0)}" for j in range(rng.randint(2, 4)))
+        out.append(f"enum En{k} {{\n{items},\n}}")
+        enums.append(f"En{k}")
+    structs = []
+    for k in range(rng.randint(3, 7)):
+        fields, bits = [], 0
+        for j in range(rng.randint(1, 4)):
+            t, w = rng.choice([("u8", 8), ("i16", 16), ("u12", 12), ("f32", 32), ("i5", 5), (rng.choice(enums), 4), ("u1", 1)])
+            if bits + w > 64:
+                break
+            bits += w
+            fields.append(f"    f{j} @ {j}: {t},")
+        out.append(f"struct M{k} {{\n" + "\n".join(fields) + "\n}")
+        structs.append(f"M{k}")
+    for k, sname in enumerate(structs):
+        lines = [f"    id: {100 + k},"]
+        if rng.random() < 0.8:
+            lines.append(f'    bus: "{rng.choice(buses)}",')
+        if rng.random() < 0.9:
+            lines.append(f'    device: "{rng.choice(devices)}",')
+        if rng.random() < 0.6:
+            lines.append(f"    period: {rng.choice([10, 20, 100])},")
+        out.append(f"impl can for {sname} {{\n" + "\n".join(lines) + "\n}")
+    svcs = []
+    for k in range(rng.randint(0, 3)):
+        ms = ",\n".join(f"    method m{j}({rng.choice(structs)}) @ {j} returns {rng.choice(structs)}" for j in range(rng.randint(1, 3)))
+        out.append(f"service Sv{k} @ {k + 1} {{\n{ms},\n}}")
+        svcs.append(f"Sv{k}")
+    for dname in devices:
+        if rng.random() < 0.7:
+            sv = rng.sample(svcs, rng.randint(0, len(svcs)))
+            body = f"    services: [{', '.join(sv)}],\n" if sv else "    address: 1,\n"
+            out.append(f"device {dname} {{\n{body}}}")
+    return 'version: "3"\n\n' + "\n".join(out) + "\n"
+
+
 def det_schemas(rng, n):
     from . import gen
     out = []
-    for _ in range(n):
+    for k in range(n):
+        if k % 2 == 1:
+            out.append(rich_schema(rng))
+            continue
         text, _ = gen_case(rng)
         # only valid schemas: drop poison by regenerating from GOOD subsets
         decls = [g for g in GOOD if rng.random() < 0.9 or g.startswith("enum E") or g.startswith("struct A")]
